@@ -592,6 +592,8 @@ func init() {
 				Inst{Pkg: "knx", Fn: "HarnessC17", Args: []int64{8, 3, 3}},
 				Inst{Pkg: "knx", Fn: "HarnessC17", Args: []int64{0, 40, 1}, Ctx: -1, Note: "no accepted telegram is lost in a backlog of 40 (non-preemptive schedules)"},
 				Inst{Pkg: "knx", Fn: "HarnessC17", Args: []int64{0, 40, 3}, Ctx: -1},
+				Inst{Pkg: "knx", Fn: "HarnessC17", Args: []int64{0, 40, 4}, Ctx: -1, Note: "no accepted telegram is lost when a backlog is partly drained and then grows on"},
+				Inst{Pkg: "knx", Fn: "HarnessC17BB", Args: []int64{5, 24, 4}, Ctx: -1, Note: "the same through a tunnel built by NewTunnel"},
 				Inst{Pkg: "knx", Fn: "HarnessC17", Args: []int64{0, 6, 3}, Note: "no accepted telegram is lost or duplicated when a backlog is drained while further telegrams are accepted"},
 				Inst{Pkg: "knx", Fn: "HarnessC17", Args: []int64{0, 7, 3}})
 			return out
@@ -701,6 +703,11 @@ func init() {
 		for _, mode := range []int64{1, 2, 3} {
 			out = append(out, Inst{Pkg: "knx", Fn: "HarnessC17", Args: []int64{0, 40, mode}, Ctx: -1, Note: "backlog of 40, non-preemptive schedules"})
 		}
+		// the backlog is partly drained (three telegrams taken out of it) and then grows on to 36: queue
+		// storage is extended while its head is not at the start
+		out = append(out, Inst{Pkg: "knx", Fn: "HarnessC17", Args: []int64{0, 40, 4}, Ctx: -1, Note: "backlog partly drained, then growing on (non-preemptive schedules)"},
+			Inst{Pkg: "knx", Fn: "HarnessC17BB", Args: []int64{1, 24, 4}, Ctx: -1, Note: "router: backlog partly drained, then growing on"},
+			Inst{Pkg: "knx", Fn: "HarnessC17BB", Args: []int64{5, 24, 4}, Ctx: -1, Note: "tunnel built by NewTunnel: backlog partly drained, then growing on"})
 		out = append(out, Inst{Pkg: "knx", Fn: "HarnessC17", Args: []int64{2, 20, 0}, Ctx: -1, Note: "group layer, 20 events, payloads kept by the application"},
 			Inst{Pkg: "knx", Fn: "HarnessC17", Args: []int64{2, 20, 3}, Ctx: -1})
 		out = append(out, Inst{Pkg: "knx", Fn: "HarnessC17BB", Args: []int64{1, 40, 1}, Ctx: -1, Note: "router, backlog of 40, non-preemptive schedules"},
@@ -733,7 +740,7 @@ func init() {
 		Quick:    func(l *loaded) []Inst { return c17(3) },
 		Thorough: func(l *loaded) []Inst { return c17(5) },
 		Covers:   []string{"C17.end"},
-		Bounds:   "tunnel client (pushInbound directly, through handleTunnelReq in UDP and TCP mode, and a client built by the real NewTunnel fed through its socket in UDP and TCP mode), router client (built by the real NewRouter, fed through its socket) and the group layer (serveGroupInbound on a plain channel, and a group tunnel built by NewGroupTunnel); bursts of 2..3 (thorough ..5; constructor-built clients from 4 on with context bound 3, the NewGroupTunnel pipeline always with context bound 2) accepted telegrams for every client and consumer behaviour, plus bursts of 6 and 7 (thorough 8) with the reader resuming in the middle for the tunnel (pushInbound; NewTunnel-built, context bound 2) and the router (context bound 2); backlogs of 24 and 40 telegrams under non-preemptive schedules (tunnel white box and NewTunnel-built, router); the tunnel also from the queue state a long history leaves behind (drained by re-slicing: empty, no spare capacity); consumer always waiting, absent for the whole burst, taking one telegram and then stalling, or resuming in the middle of the burst; every interleaving of the server side, the parked delivery goroutines and the consumer",
+		Bounds:   "tunnel client (pushInbound directly, through handleTunnelReq in UDP and TCP mode, and a client built by the real NewTunnel fed through its socket in UDP and TCP mode), router client (built by the real NewRouter, fed through its socket) and the group layer (serveGroupInbound on a plain channel, and a group tunnel built by NewGroupTunnel); bursts of 2..3 (thorough ..5; constructor-built clients from 4 on with context bound 3, the NewGroupTunnel pipeline always with context bound 2) accepted telegrams for every client and consumer behaviour, plus bursts of 6 and 7 (thorough 8) with the reader resuming in the middle for the tunnel (pushInbound; NewTunnel-built, context bound 2) and the router (context bound 2); backlogs of 24 and 40 telegrams under non-preemptive schedules (tunnel white box and NewTunnel-built, router); the tunnel also from the queue state a long history leaves behind (drained by re-slicing: empty, no spare capacity); consumer always waiting, absent for the whole burst, taking one telegram and then stalling, resuming in the middle of the burst, or (backlog of 40) taking three telegrams out of the backlog after a quarter of the burst and stalling again; every interleaving of the server side, the parked delivery goroutines and the consumer",
 		Outside:  "bursts longer than 8 under full interleaving and longer than 40 without preemption; the runtime's FIFO order among senders that are already blocked is not modelled (any blocked sender may be served), which only adds schedules",
 		Assume:   []string{"the pinned tree reordered overflowed telegrams (per-telegram goroutines); repaired by the fix: commit recorded in known_findings.json, so all consumer behaviours are enforced now"},
 	})
